@@ -269,6 +269,47 @@ def body_fast_flow(S, loop, part):
     S.note("writes", len(writes))
 
 
+def body_fast_retry(S, loop, part):
+    """a lost response is retried as configured and does not block for ever"""
+    S.now_symbolic(loop)
+    lost = S.int("responses_lost", 0, 3)
+    latency = S.real("latency", 0.01, 0.9)
+    c, got = _fast()
+    writes = []
+
+    class Wr:
+        def write(self, b):
+            writes.append((loop.time(), b))
+            if b == b"ID:\r":
+                n = sum(1 for _, x in writes if x == b"ID:\r")
+                if n > lost:
+                    loop.call_later(latency, lambda: c.parse_incoming_raw_bytes(b"ID:NET FP-CPU-2000 02.13\r"))
+    c.writer = Wr()
+    c.send_queue = asyncio.Queue()
+    c.no_response_waiting.set()
+    c.message_processors["ID:"] = lambda m: (got.append("ID:" + m), c.done_processing_msg_response())
+    state = {}
+
+    async def main():
+        task = asyncio.ensure_future(c._socket_writer())
+        t0 = loop.time()
+        try:
+            await asyncio.wait_for(c.send_and_wait_for_response_processed("ID:", "ID:", timeout=1, max_retries=2), timeout=30)
+            state["returned"] = loop.time() - t0
+        except asyncio.TimeoutError:
+            state["blocked"] = True
+        task.cancel()
+    loop.run_until_complete(main())
+    n_sent = sum(1 for _, x in writes if x == b"ID:\r")
+    if state.get("blocked"):
+        raise Violation("lost-response-is-retried-not-blocking-for-ever", "FastSerialCommunicator.send_and_wait_for_response_processed",
+                        "%d response(s) lost with max_retries=2, timeout=1 s: command written %d time(s) and the caller is still blocked after 30 s" % (lost, n_sent))
+    if lost <= 2 and n_sent != lost + 1:
+        raise Violation("lost-response-is-retried-as-configured", "FastSerialCommunicator.send_and_wait_for_response_processed", "%d lost, written %d times" % (lost, n_sent))
+    S.note("nontrivial", True)
+    S.note("lost", lost)
+
+
 def custom_checks(tier, seed, deadline):
     """E2: CRC-8 routine, AST -> z3"""
     import random
@@ -380,4 +421,5 @@ def scenarios(tier):
             Scenario("opp_resync", setup, body_opp_resync, rs, teardown=teardown, part_budget=pb, per_path_timeout=60),
             Scenario("opp_integrity", setup, body_opp_integrity, it, teardown=teardown, part_budget=pb, per_path_timeout=60),
             Scenario("delim_split", setup, body_delim_split, ds, teardown=teardown, part_budget=pb, per_path_timeout=60),
-            Scenario("fast_flow", setup, body_fast_flow, fl, teardown=teardown, part_budget=pb, per_path_timeout=60)]
+            Scenario("fast_flow", setup, body_fast_flow, fl, teardown=teardown, part_budget=pb, per_path_timeout=60),
+            Scenario("fast_retry", setup, body_fast_retry, [dict()], teardown=teardown, part_budget=pb, per_path_timeout=60, min_nontrivial=0)]
